@@ -103,14 +103,16 @@ def default_render(ns, na, ne, rng: random.Random | None = None, plain=False):
         "outside_to_last": any(lo > 0 or lo + d <= 0 for lo, d in zip(slows, sd)) and rng.random() < 0.6,
         "ghost": any(lo > 0 or lo + d <= 0 for lo, d in zip(slows, sd)),
         "v0_int": rng.random() < 0.25,
-        "adiv": rng.choice([1, 1, 1, 2, 4]),
+        "adiv": rng.choice([1, 1, 1, 2, 4, 2 ** 30]),       # 2^30: distinct actions closer than 1e-8
+        "aoffset": rng.choice([0, 0, 0, 1000000]),           # distinct actions closer than 1e-5 relative
+        "sdiv": rng.choice([1, 1, 1, 2, 4]),
     }
 
 
 def action_array(render, na):
     """The action space as the problem presents it: int32 rows, or float64 rows with fractional components
     (render["adiv"] > 1: every component divided by adiv - e.g. order quantities in half units)."""
-    a = np.array(render["avecs"], dtype=np.int32).reshape(na, -1)
+    a = np.array(render["avecs"], dtype=np.int32).reshape(na, -1) + np.int32(render.get("aoffset", 0))
     adiv = int(render.get("adiv", 1))
     return a if adiv == 1 else a.astype(np.float64) / adiv
 
@@ -155,7 +157,14 @@ def make_problem(mdp: dict):
     pol0 = None
     if r.get("has_init_policy"):
         pol0 = jnp.array(avecs[np.array(mdp["pol0"], dtype=np.int32)])
-    j_states = jnp.array(states)
+    # state vectors with fractional components (e.g. a grid in half units): float64 rows, render["sdiv"] > 1
+    sdiv = int(r.get("sdiv", 1))
+    j_states = jnp.array(states) if sdiv == 1 else jnp.array(states.astype(np.float64) / sdiv)
+
+    def _ivec(state):
+        if sdiv == 1:
+            return jnp.asarray(state).astype(jnp.int32)
+        return jnp.round(jnp.asarray(state) * sdiv).astype(jnp.int32)
     j_avecs = jnp.array(avecs)
     j_evecs = jnp.array(evecs)
     j_strides = jnp.array(strides)
@@ -179,7 +188,7 @@ def make_problem(mdp: dict):
             return j_evecs
 
         def state_to_index(self, state):
-            v = jnp.asarray(state).astype(jnp.int32) - j_lows
+            v = _ivec(state) - j_lows
             rel = jnp.clip(v, 0, j_dims - 1)
             idx = jnp.sum(rel * j_strides)
             if outside_to_last:
@@ -201,7 +210,7 @@ def make_problem(mdp: dict):
         def _row(self, state):
             if not ghost:
                 return self.state_to_index(state)
-            v = jnp.asarray(state).astype(jnp.int32) - j_lows
+            v = _ivec(state) - j_lows
             inside = jnp.all((v >= 0) & (v <= j_dims - 1))
             return jnp.where(inside, self.state_to_index(state), ns)
 
